@@ -450,3 +450,48 @@ def run_check(mod, tier, verif_seed, count=None, jobs=None):
         print(f"HARNESS-ERROR property={mod.ID}: nothing ran", file=sys.stderr)
         return 2
     return 1 if reported else 0
+
+
+# ----------------------------------------------------------------------------
+# determinism self-test support
+
+
+def _digest_chunk(modname, verif_seed, tier, indices, twice):
+    mod = __import__(modname, fromlist=["x"])
+    out = []
+    for idx in indices:
+        for k, scn in enumerate(_scenarios_for(mod, verif_seed, tier, idx)):
+            if k >= 3:
+                break
+            r = mod.run(scn)
+            d = r["stats"]["digest"] + "|" + ",".join(sorted(v["rule"] for v in r["violations"]))
+            if twice:
+                r2 = mod.run(scn)
+                d2 = r2["stats"]["digest"] + "|" + ",".join(sorted(v["rule"] for v in r2["violations"]))
+                if d2 != d:
+                    d = "NONDET:" + d + "!=" + d2
+            out.append((idx, k, scen_hash(scn)[:12], d))
+    return out
+
+
+def digests(mod, tier, verif_seed, count, jobs):
+    """Print one line per scenario: index, scenario hash, run digest (run twice)."""
+    modname = mod.__name__
+    idxs = list(range(count))
+    if jobs <= 1:
+        rows = _digest_chunk(modname, verif_seed, tier, idxs, True)
+    else:
+        ctx = multiprocessing.get_context("fork")
+        per = max(1, count // (jobs * 3))
+        chunks = [idxs[i:i + per] for i in range(0, count, per)]
+        rows = []
+        with concurrent.futures.ProcessPoolExecutor(max_workers=jobs, mp_context=ctx) as ex:
+            for part in ex.map(_digest_chunk, [modname] * len(chunks), [verif_seed] * len(chunks),
+                               [tier] * len(chunks), chunks, [True] * len(chunks)):
+                rows.extend(part)
+    bad = 0
+    for idx, k, sh, d in rows:
+        if d.startswith("NONDET"):
+            bad += 1
+        print(idx, k, sh, d)
+    return 1 if bad else 0
